@@ -6,7 +6,11 @@ soundness of the range micro-index skip rule: if ANY value stored in the block (
 lie within the block's [min, max]) satisfies the comparison, the block is NOT skipped — for all
 six operators, all literals and all ranges, for signed, unsigned and float indexes.
 The full-strength statement for `!=` must also cover records that LACK the column (they satisfy
-`!=` under the engine's rules): that is false — `ne_prune_unsound_with_absent`.
+`!=` under the engine's rules).  For the `!=` kernel alone that is false (`ne_prune_unsound_with_absent_old`: the
+behaviour before patch c02-2); with the patch the block-level rule (`intRangeKeep`: doRangeCheckForCol /
+doRangeCheckForCols do not consult the range for `!=`) is sound with absent records too —
+`range_rule_sound_with_absent`.  The small model of that block-level rule is tied to the code by the end-to-end
+suites only (two layouts of the same events).
 Layout independence as a whole (flush/rotate histories, dictionary vs plain encoding) is decided by
 the end-to-end differential (same events under different layouts vs the layout-free specification).
 -/
@@ -58,10 +62,42 @@ theorem float_range_prune_sound (op : Int) (lit mn mx v : Rat) (h1 : mn ≤ v) (
 /-- … and the rule is not vacuous: a block whose range excludes the literal IS skipped for `=` -/
 example : doesIntPassRangeFilter FilterOperator_Equals 50 1 9 = false := by decide
 
-/-- C03.2 full strength, records may LACK the column: a record without the column satisfies `!=`
-(engine rule, see the end-to-end evidence), yet a block whose present values all equal the literal
-is skipped.  So the `!=` skip rule can change which events match. -/
-theorem ne_prune_unsound_with_absent :
+/-- the comparison on a record that may LACK the column: a record without the column satisfies exactly `!=`
+(engine rule: filterOpOnDataType on the empty / back-fill record) -/
+def satOpt (op : Int) (v : Option Int) (lit : Int) : Prop :=
+  match v with
+  | some x => sat op x lit
+  | none => op = FilterOperator_NotEquals
+
+/-- the block-level rule of doRangeCheckForCol (rotated) / doRangeCheckForCols (open segments) with patch c02-2: for
+`!=` the block is kept whatever the range says, otherwise the range kernel decides -/
+def intRangeKeep (op lit mn mx : Int) : Bool :=
+  if op = FilterOperator_NotEquals then true else doesIntPassRangeFilter op lit mn mx
+
+/-- C03.2 full strength, records may LACK the column (patch c02-2): a block holding a record that satisfies the
+comparison — a present value within the block's range, or for `!=` a record without the column — is never skipped,
+for all six operators, all literals, ranges and blocks. -/
+theorem range_rule_sound_with_absent (op lit mn mx : Int) (vals : List (Option Int))
+    (hr : ∀ v ∈ vals, ∀ x, v = some x → mn ≤ x ∧ x ≤ mx) (hs : ∃ v ∈ vals, satOpt op v lit) :
+    intRangeKeep op lit mn mx = true := by
+  unfold intRangeKeep
+  by_cases hne : op = FilterOperator_NotEquals
+  · simp [hne]
+  · simp only [hne, if_false]
+    obtain ⟨v, hv, hsat⟩ := hs
+    cases v with
+    | none => exact absurd hsat hne
+    | some x =>
+      have hb := hr _ hv x rfl
+      exact int_range_prune_sound op lit mn mx x hb.1 hb.2 hsat
+
+/-- … and the rule still skips: `=` on a block whose range excludes the literal -/
+example : intRangeKeep FilterOperator_Equals 50 1 9 = false := by decide
+
+/-- BEFORE patch c02-2 the kernel decided for `!=` too: a record without the column satisfies `!=`, yet a block
+whose present values all equal the literal was skipped (`n!=5` on {n:5},{n:5},{} in one block returned nothing, in
+two blocks the third event).  So the `!=` skip rule changed which events match. -/
+theorem ne_prune_unsound_with_absent_old :
     ¬ (∀ (lit mn mx : Int) (vals : List (Option Int)),
         (∀ v ∈ vals, ∀ x, v = some x → mn ≤ x ∧ x ≤ mx) →
         (∃ v ∈ vals, v = none ∨ ∃ x, v = some x ∧ x ≠ lit) →
@@ -418,11 +454,23 @@ theorem bool_probe_counterexample_old :
     passRotated false [some (exact (colKeysDict [.bool true, .bool false]))] (boolProbeOld true true) false = false ∧
     passUnrotatedOld [none] (boolProbeOld true true) = false := by decide
 
-/-- patch c03-E: a boolean comparison on a record that is not a boolean is `false`, where the OLD code returned an error
-(which stopped the dictionary word loop / the record loop of the block at that record); on booleans nothing changed -/
+/-- patch c03-E: a boolean comparison on a record that is not a boolean answers without an error, where the OLD code
+returned an error (which stopped the dictionary word loop / the record loop of the block at that record); on booleans
+nothing changed -/
 theorem boolRaw_old (eq lit : Bool) (v : CVal) :
     (boolRawOld eq lit v = none ↔ ∀ b, v ≠ .bool b) ∧ (∀ r, boolRawOld eq lit v = some r → boolRaw eq lit v = r) := by
   cases v <;> simp [boolRawOld, boolRaw]
+
+/-- patch c02-1: an event that does not have the column satisfies `b != true` whether its block has the column (back-fill
+record) or not (the reader hands out an empty record, for which `filterOpOnDataType` has always answered `!=` yes);
+before, the back-fill record answered no and the answer depended on what else the block holds.  Records of another
+type are untouched. -/
+theorem boolRaw_backfill (eq lit : Bool) :
+    boolRaw eq lit .backfill = !eq ∧ boolRawBackfillOld eq lit .backfill = false ∧
+    (∀ v, v ≠ .backfill → boolRaw eq lit v = boolRawBackfillOld eq lit v) := by
+  refine ⟨rfl, rfl, ?_⟩
+  intro v hv
+  cases v <;> simp_all [boolRaw, boolRawBackfillOld]
 
 /-- the in-place variant `addToBlockBloomBothCases` (work buffer = the value; array-dict keys and values): each
 lower-casing overwrites the head of the value, so the final "lower-cased full value" is wrong — for "Foo Bar" the key
